@@ -28,7 +28,7 @@ class Check(FormulaCheck):
             '(all shapes up to 4x4 quick / 8x8 thorough) of distinct numbers or text, as literal, variable or range value; MATCH types 0/1/-1 on '
             'ascending/descending arrays with duplicates, zeros, negatives, present/absent/below/above lookups, wildcards. non-trivial = compared '
             'with the model; distinct = distinct (function, array, indices, injection).')
-    ASSUMPTIONS = ('the two-index form on a 1-D array and area_num are unspecified; arrays are homogeneous; "[" is excluded from lookup text',
+    ASSUMPTIONS = ('the two-index form on a 1-D array may read it as a row or as a column (or refuse), but must not answer anything neither reading addresses; area_num is unspecified; arrays are homogeneous; "[" is excluded from lookup text',
                    'fractional indices need only give an error or the truncated position',
                    'INDEX with every given index 0/omitted may return the whole array or an error',
                    'MATCH types 1/-1: any position holding the qualifying extreme value is accepted (duplicates)')
@@ -97,7 +97,18 @@ class Check(FormulaCheck):
         if not twod:
             i = r if c is None else (c if r is None else None)
             if i is None:
-                return            # two-index form on a 1-D array: unspecified
+                # both indices on a 1-D array: whether it lies as a row or as a column is not specified, so every reading is
+                # accepted - but the answer must be the element one of them addresses, the whole array, or an error
+                cands = []
+                if c in (0, 1) and 1 <= r <= R:
+                    cands.append(arr[r - 1])
+                if r in (0, 1) and 1 <= c <= R:
+                    cands.append(arr[c - 1])
+                whole_ok = (r == 0 and c in (0, 1)) or (c == 0 and r in (0, 1))
+                ok = self.is_err(g) or any(g == x and type(g) is type(x) for x in cands) or (whole_ok and g == whole)
+                self.expect(key + ':two-indices-yield-something-not-addressed' + tag, ok, formula=f, array=arr, got=g,
+                            accepted=cands + ['an error'] + (['the whole array'] if whole_ok else []))
+                return
             if 1 <= i <= R:
                 self.expect(key + ':wrong-element', g == arr[i - 1] and type(g) is type(arr[i - 1]), formula=f, array=arr, got=g, expected=arr[i - 1])
             elif i == 0:
@@ -137,6 +148,9 @@ class Check(FormulaCheck):
                     self.judge_index(arr, i, None, rnd, False)
                     if rnd.random() < 0.3:
                         self.judge_index(arr, None, i, rnd, False)
+                for r in range(-2, n + 3):
+                    for c in range(-2, n + 3):
+                        self.judge_index(arr, r, c, rnd, False)
         for (R, C) in spec['shapes']:
             for kind in ('num', 'text'):
                 flat = self.mkarray(rnd, R * C, kind)
